@@ -154,6 +154,7 @@ type Rig struct {
 	Seq       *sequence.SequenceManager
 	PhyDBs    map[string]string
 	tables    map[int]bool
+	ps        *parser.Parser
 }
 
 // ErrParse marks statements the parser rejects.
@@ -216,10 +217,20 @@ func Parse(sql string) (ast.StmtNode, error) {
 	return parser.New().ParseOneStmt(sql, "", "")
 }
 
+// Parse is Parse with a parser object owned by the rig (allocating a parser per statement,
+// as the proxy does, dominates the cost of a bulk enumeration; the parser resets itself on
+// every call).
+func (r *Rig) Parse(sql string) (ast.StmtNode, error) {
+	if r.ps == nil {
+		r.ps = parser.New()
+	}
+	return r.ps.ParseOneStmt(sql, "", "")
+}
+
 // Plan parses and plans a statement for session database db ("" = none). Errors:
 // ErrParse (wrapped), ErrPanic (wrapped), or BuildPlan's own error.
 func (r *Rig) Plan(db, sql string) (p plan.Plan, stmt ast.StmtNode, err error) {
-	stmt, err = Parse(sql)
+	stmt, err = r.Parse(sql)
 	if err != nil {
 		return nil, nil, fmt.Errorf("%w: %v", ErrParse, err)
 	}
